@@ -89,6 +89,8 @@ struct IState {
     /// was judged already
     found_at: Option<u64>,
     follow_judged: bool,
+    /// the three tries of the current follow-up round were judged / cannot be judged
+    tries_judged: bool,
 }
 
 fn judge(case: &Case, run: &Run, ctx: &mut CaseCtx) {
@@ -113,6 +115,7 @@ fn judge(case: &Case, run: &Run, ctx: &mut CaseCtx) {
     let mut completed_via_split = 0u64;
     let mut completions = 0u64;
     let mut followup_rounds = 0u64;
+    let mut three_try_rounds = 0u64;
     let fancy = case.insts.iter().any(|i| i.label.contains('.') || i.label.contains('\\') || !i.label.is_ascii());
     // queries sent, for the follow-up part: (time, question name, qtype)
     let sent_q: Vec<(u64, usize, Name, u16)> = d
@@ -128,7 +131,7 @@ fn judge(case: &Case, run: &Run, ctx: &mut CaseCtx) {
     // how many datagrams carried records of each instance before it was complete
     let mut pieces: Vec<u32> = vec![0; n];
     let mut ptr_first: Vec<Option<bool>> = vec![None; n];
-    replay3(case, &d.log, |pos, e, _upper, lower, _mid| {
+    replay3(case, &d.log, |pos, e, upper, lower, _mid| {
         if violation.is_some() {
             return;
         }
@@ -162,6 +165,7 @@ fn judge(case: &Case, run: &Run, ctx: &mut CaseCtx) {
                     st[i].found = true;
                     st[i].found_at = Some(t);
                     st[i].follow_judged = false;
+                    st[i].tries_judged = false;
                 }
                 ServiceEvent::ServiceRemoved(_, full) => {
                     if let Some((i, _)) = inst_by_plain(case, full) {
@@ -239,6 +243,42 @@ fn judge(case: &Case, run: &Run, ctx: &mut CaseCtx) {
                             }
                         }
                     }
+                    // ---- (C) the follow-up is tried three times, 500 ms apart, while records are missing
+                    if let (true, Some(f), false) = (st[i].found, st[i].found_at, st[i].tries_judged) {
+                        let plain_label = !name.0[0].contains(&b'.') && !name.0[0].contains(&b'\\');
+                        // what is still missing: the SRV, or every address of the SRV's host
+                        let srv_hosts: Vec<Name> = upper.srvs(name).filter(|e| e.possibly_live(t)).filter_map(|e| wire::srv_of_rdata(&e.rdata)).collect();
+                        let missing = srv_hosts.is_empty() || srv_hosts.iter().all(|h| !upper.addrs(h).any(|a| a.possibly_live(t)));
+                        if !missing || st[i].last_resolved.is_some() || !plain_label {
+                            st[i].tries_judged = true;
+                        } else if t >= f + 1600 {
+                            st[i].tries_judged = true;
+                            let all_hosts: Vec<Name> = upper.srvs(name).filter_map(|e| wire::srv_of_rdata(&e.rdata)).collect();
+                            let mut tries: Vec<u64> = sent_q
+                                .iter()
+                                .filter(|(qt, _, qn, qty)| {
+                                    *qt > f && *qt <= f + 1600 && (([T_ANY, T_SRV, T_TXT].contains(qty) && qn == name) || ([T_A, T_AAAA, T_ANY].contains(qty) && all_hosts.iter().any(|h| h.eq_ignore_case(qn))))
+                                })
+                                .map(|x| x.0)
+                                .collect();
+                            tries.dedup();
+                            three_try_rounds += 1;
+                            if tries.len() < 3 {
+                                violation = Some((
+                                    "C04/follow-up/fewer-than-three-tries".into(),
+                                    format!(
+                                        "{} was found at +{} ms and stayed unresolved for 1600 ms with {} missing, yet the daemon asked for the missing records only at {:?} (+ms): {} tries instead of three",
+                                        name.to_escaped(),
+                                        f - T0,
+                                        if srv_hosts.is_empty() { "its SRV" } else { "every address of its host" },
+                                        tries.iter().map(|x| x - T0).collect::<Vec<_>>(),
+                                        tries.len()
+                                    ),
+                                ));
+                                return;
+                            }
+                        }
+                    }
                     // ---- (B) follow-up queries for an instance that is found but not resolvable yet
                     if let (true, Some(f), false) = (st[i].found, st[i].found_at, st[i].follow_judged) {
                         if t >= f + 500 {
@@ -300,6 +340,7 @@ fn judge(case: &Case, run: &Run, ctx: &mut CaseCtx) {
     ctx.class_if(completions > 0, "complete-set-reported");
     ctx.class_if(completed_via_split > 0, "set-split-over->=2-packets-ptr-not-first");
     ctx.class_if(followup_rounds > 0, "follow-up-round");
+    ctx.class_if(three_try_rounds > 0, "three-tries-judged");
     ctx.class_if(fancy, "instance-label-with-dot-backslash-or-non-ascii");
     ctx.class_if(case.insts.iter().any(|i| i.ty % 3 == 2), "foreign-records-interleaved");
     if completed_via_split > 0 || followup_rounds > 0 {
@@ -339,7 +380,7 @@ fn partition_ops() -> BoxedStrategy<Vec<Op>> {
         any::<u64>(),
         proptest::bool::weighted(0.3),
         prop_oneof![3 => Just(0u64), 1 => Just(200), 1 => 0u64..2000],
-        proptest::option::weighted(0.4, 0usize..3),
+        proptest::option::weighted(0.5, (0usize..3, prop_oneof![2 => Just(Kind::Txt), 3 => Just(Kind::Ptr), 1 => Just(Kind::Srv)], prop_oneof![Just(0u8), Just(2u8)], any::<bool>())),
     )
         .prop_map(|(inst, packet_of, section_of, perm, dup, gap, foreign)| {
             let kinds = [Kind::Ptr, Kind::Srv, Kind::Txt, Kind::Addr(0), Kind::Addr(2)];
@@ -355,15 +396,24 @@ fn partition_ops() -> BoxedStrategy<Vec<Op>> {
                 });
             }
             // a foreign record rides along in one packet
-            if let Some(f) = foreign {
+            // (a TXT, SRV or PTR of another instance - possibly of a type nobody browses - in the
+            // answer or additional section, before or after the instance's own records)
+            if let Some((f, kind, section, first)) = foreign {
                 let other = (inst + 1 + f) % 3;
-                packets[(perm % 5) as usize].push(RecSel {
+                let sel = RecSel {
                     inst: other,
-                    kind: Kind::Txt,
-                    ttl: 4500,
+                    kind,
+                    ttl: if matches!(kind, Kind::Srv) { 120 } else { 4500 },
                     flush_as_usual: true,
-                    section: 2,
-                });
+                    section,
+                };
+                // ride along with the instance's PTR when there is one
+                let target = (0..5).find(|p| packets[*p].iter().any(|r| matches!(r.kind, Kind::Ptr))).filter(|_| perm % 3 != 0).unwrap_or((perm % 5) as usize);
+                if first {
+                    packets[target].insert(0, sel);
+                } else {
+                    packets[target].push(sel);
+                }
             }
             let mut order: Vec<usize> = (0..5).collect();
             // permutation from `perm`
@@ -402,10 +452,10 @@ pub fn strategy() -> BoxedStrategy<Case> {
             ops
         }),
         // 2: PTR only, the daemon's follow-ups answered by a responder (or never)
-        3 => (0usize..3, proptest::option::weighted(0.8, prop_oneof![Just(0u64), Just(100), Just(600), Just(1100)]), 0u64..2000).prop_map(|(inst, responder, later)| {
+        4 => (0usize..3, proptest::option::weighted(0.8, (prop_oneof![Just(0u64), Just(100), Just(600), Just(1100)], prop_oneof![3 => Just(0u8), 2 => Just(1u8), 2 => Just(2u8), 1 => Just(3u8)])), 0u64..2000).prop_map(|(inst, responder, later)| {
             let mut ops = Vec::new();
-            if let Some(d) = responder {
-                ops.push(Op::Responder { on: true, delay_ms: d });
+            if let Some((d, mute)) = responder {
+                ops.push(Op::Responder { on: true, delay_ms: d, mute });
             }
             ops.push(Op::Deliver { k: 0, recs: vec![RecSel { inst, kind: Kind::Ptr, ttl: 4500, flush_as_usual: true, section: 0 }], copies: 1 });
             ops.push(Op::Advance { ms: 2500 + later });
@@ -419,7 +469,7 @@ pub fn strategy() -> BoxedStrategy<Case> {
                 ops.push(Op::Deliver { k: 0, recs: full(0, 0), copies: 1 });
             }
             ops.push(Op::Advance { ms: 4000 });
-            ops.push(Op::Responder { on: true, delay_ms: delay });
+            ops.push(Op::Responder { on: true, delay_ms: delay, mute: 0 });
             ops.push(Op::Deliver { k: 0, recs: vec![RecSel { inst, kind: Kind::Ptr, ttl: 4500, flush_as_usual: true, section: 0 }], copies: 1 });
             ops.push(Op::Advance { ms: 3000 });
             ops
@@ -476,6 +526,7 @@ pub fn run(tier: Tier) -> i32 {
     agg.require_class("arrivals:complete-set-reported", 5000);
     agg.require_class("arrivals:set-split-over->=2-packets-ptr-not-first", 2000);
     agg.require_class("arrivals:follow-up-round", 2000);
+    agg.require_class("arrivals:three-tries-judged", 1000);
     agg.require_class("arrivals:instance-label-with-dot-backslash-or-non-ascii", 1000);
     agg.finish()
 }
